@@ -89,6 +89,19 @@ pub const ALPHA6: [[u8; 6]; 3] = [
     [0x00, 0x00, 0x00, 0x00, 0x00, 0x01],
 ];
 pub const ALPHA3: [[u8; 3]; 3] = [[0xAA, 0xBB, 0xCC], [0x00, 0x00, 0x00], [0x00, 0x00, 0x01]];
+/// values a special case or a partial comparison would single out: all-ones, differing from ALPHA6[0] only in
+/// the leading / only in one middle byte, zero tail, zero head, equal to the padding pattern in all but one byte
+pub const SPECIAL6: [[u8; 6]; 8] = [
+    [0xFF; 6],
+    [0x06, 0x01, 0x00, 0x00, 0x00, 0x01],
+    [0x02, 0x00, 0x00, 0x80, 0x00, 0x01],
+    [0x02, 0x11, 0x00, 0x00, 0x00, 0x00],
+    [0x00, 0x00, 0x00, 0x00, 0x10, 0x20],
+    [0xFF, 0xFF, 0xFF, 0xFF, 0xFF, 0xFE],
+    [0x80, 0x00, 0x00, 0x00, 0x00, 0x00],
+    [0x02, 0x00, 0x00, 0x00, 0x00, 0x00],
+];
+pub const SPECIAL3: [[u8; 3]; 5] = [[0xFF; 3], [0x02, 0x00, 0x00], [0x00, 0x80, 0x00], [0xFF, 0xFF, 0xFE], [0x00, 0x00, 0x02]];
 
 /// non-zero 6-byte, 3-byte (incl. 000000), broadcast; biased to a small alphabet so that
 /// re-use substitution happens in streams.
@@ -96,6 +109,8 @@ pub fn lab_addr_or_bcast() -> impl Strategy<Value = Lab> {
     prop_oneof![
         4 => (0usize..3).prop_map(|i| Lab::Six(ALPHA6[i])),
         4 => (0usize..3).prop_map(|i| Lab::Three(ALPHA3[i])),
+        2 => (0usize..SPECIAL6.len()).prop_map(|i| Lab::Six(SPECIAL6[i])),
+        1 => (0usize..SPECIAL3.len()).prop_map(|i| Lab::Three(SPECIAL3[i])),
         2 => any::<[u8; 6]>().prop_map(|mut b| { if b.iter().all(|x| *x == 0) { b[5] = 1; } Lab::Six(b) }),
         2 => any::<[u8; 3]>().prop_map(Lab::Three),
         2 => Just(Lab::Broadcast),
@@ -838,4 +853,31 @@ pub fn idx16(i: u16, len: usize) -> usize {
     } else {
         ((i as usize) * len) >> 16
     }
+}
+
+// ---------------------------------------------------------------------------
+// PDU-length sweeps shared by the enumerated parts of C02 / C06
+
+/// number of lengths swept out of 0..top: thorough = every one; quick = 0..=4200, the last 241 and
+/// every 13th in between (offset rotating so that all residues are visited)
+pub fn sweep_lens(t: crate::engine::Tier, top: u64) -> u64 {
+    match t {
+        crate::engine::Tier::Thorough => top,
+        crate::engine::Tier::Quick => 4201 + 241 + (top - 241 - 4201) / 13,
+    }
+}
+
+pub fn sweep_len_at(t: crate::engine::Tier, top: u64, j: u64) -> u32 {
+    (match t {
+        crate::engine::Tier::Thorough => j,
+        crate::engine::Tier::Quick => {
+            if j < 4201 {
+                j
+            } else if j < 4201 + 241 {
+                top - 241 + (j - 4201)
+            } else {
+                (4201 + (j - 4201 - 241) * 13 + (j % 13)).min(top - 1)
+            }
+        }
+    }) as u32
 }
